@@ -50,20 +50,26 @@ Legal(p) == LegalPath(Final(p))
 \* ---- behavioural part (trace validation)
 VARIABLES inEfun, approvedR, approvedW, policy
 vars == <<inEfun, approvedR, approvedW, policy>>
-Init == inEfun = FALSE /\ approvedR = {} /\ approvedW = {} /\ policy = "allow"
+Init == inEfun = "" /\ approvedR = {} /\ approvedW = {} /\ policy = "allow"
 
 IsPrefix(s, t) == Len(s) <= Len(t) /\ SubSeq(t, 1, Len(s)) = s
 \* an ancestor directory of an approved path (get_dir / stat list the directory part of a pattern), or
 \* the approved path without its trailing slashes
 Ancestor(p, a) == IsPrefix(p, a) /\ (Len(p) = Len(a) \/ At(a, Len(p) + 1) = Slash)
+\* directory listings stat the entries of the directory an approved pattern names
+Listing == {"get_dir", "get_dir_l", "stat"}
+RECURSIVE LastSlash(_, _)
+LastSlash(p, i) == IF i = 0 THEN 0 ELSE IF p[i] = Slash THEN i ELSE LastSlash(p, i - 1)
+DirOf(p) == SubSeq(p, 1, LastSlash(p, Len(p)))
+Sibling(S, p) == \E a \in S : DirOf(a) = DirOf(p) \/ IsPrefix(a \o <<Slash>>, p) \/ IsPrefix(a, p)
 Covered(S, p) == \E a \in S : IsPrefix(a, p) \/ Ancestor(p, a) \/ a = <<Dot>> \/ p = <<Dot>>   \* "." is the directory of every top-level name
 
-EfunBegin == /\ ~inEfun /\ inEfun' = TRUE /\ approvedR' = {} /\ approvedW' = {} /\ UNCHANGED policy
-EfunEnd == /\ inEfun /\ inEfun' = FALSE /\ approvedR' = {} /\ approvedW' = {} /\ UNCHANGED policy
+EfunBegin(ef) == /\ inEfun = "" /\ inEfun' = ef /\ approvedR' = {} /\ approvedW' = {} /\ UNCHANGED policy
+EfunEnd == /\ inEfun # "" /\ inEfun' = "" /\ approvedR' = {} /\ approvedW' = {} /\ UNCHANGED policy
 
 \* the master was asked; its answer: "deny", "allow", or a rewritten path
 Ask(kind, asked, answer, rewritten) ==
-  /\ inEfun
+  /\ inEfun # ""
   /\ LET p == IF answer = "allow" THEN Final(asked) ELSE Final(rewritten) IN
      IF answer = "deny" THEN UNCHANGED <<approvedR, approvedW>>
      ELSE IF kind = "write" THEN approvedW' = approvedW \cup {p} /\ approvedR' = approvedR \cup {p}
@@ -73,6 +79,7 @@ Ask(kind, asked, answer, rewritten) ==
 \* a file-system call of the driver process
 Fs(path, mutating) ==
   /\ ~Escapes(path)                                   \* never outside the mudlib
-  /\ inEfun => (IF mutating THEN Covered(approvedW, path) ELSE Covered(approvedR, path))
+  /\ inEfun # "" => (IF mutating THEN Covered(approvedW, path)
+                     ELSE Covered(approvedR, path) \/ (inEfun \in Listing /\ Sibling(approvedR, path)))
   /\ UNCHANGED vars
 =============================================================================
